@@ -27,7 +27,8 @@ class FakeProbe:
 
 
 class RealSim(simrun.Sim):
-    def __init__(self, root, g, ninja=None, variant="rel"):
+    def __init__(self, root, g, ninja=None, variant="rel", regen=False):
+        self.regen = regen
         self.ninja = ninja or build.ninja_binary(variant)
         self.vtool = build.c_tool("vtool")
         self.extra_env = {}
@@ -81,7 +82,7 @@ class RealSim(simrun.Sim):
                 dirs.append(rel)
             for fn in fnames:
                 p = fn if rel == "." else os.path.join(rel, fn)
-                if p in ("build.ninja", ".verif_trace", ".ninja_log", ".ninja_deps", ".ninja_lock") or ".vtmp" in p:
+                if p in ("build.ninja", "build.ninja.in", ".verif_trace", ".ninja_log", ".ninja_deps", ".ninja_lock") or ".vtmp" in p:
                     continue
                 st = os.stat(os.path.join(base, fn))
                 try:
@@ -124,7 +125,21 @@ class RealSim(simrun.Sim):
         g = self.g
         text = graphs.real_manifest(self.manifest_graph(req), self.vtool)
         mp = self.path("build.ninja")
-        if not os.path.exists(mp) or open(mp).read() != text:
+        if getattr(self, 'regen', False):
+            # the manifest is itself a build product: ninja regenerates it from build.ninja.in (RebuildManifest + reload)
+            text += ("rule regen\n  command = cp build.ninja.in build.ninja\n  generator = 1\n  description = REGEN\n"
+                     "build build.ninja: regen build.ninja.in\n")
+            ip = self.path("build.ninja.in")
+            if not os.path.exists(ip) or open(ip).read() != text:
+                time.sleep(GAP)
+                with open(ip, "w") as f:
+                    f.write(text)
+                time.sleep(GAP)
+                self.labels.add('manifest_regenerated_by_ninja')
+            if not os.path.exists(mp):
+                with open(mp, "w") as f:
+                    f.write(text)
+        elif not os.path.exists(mp) or open(mp).read() != text:
             with open(mp, "w") as f:
                 f.write(text)
         try:
